@@ -1,8 +1,8 @@
 """C06: TRAPA #1-#3 / RTE for all 256 CCR values, interrupt entry for vectors 1-63 x CCR, vector contents with a
-non-zero top byte, stacks across RAM and DRAM with arbitrary upper byte, entry followed by RTE."""
+non-zero top byte, stacks across RAM and DRAM with arbitrary upper byte, entry followed by RTE, also with further requests pending while RTE executes."""
 from . import forms, common, isa
 KEYS = common.STATE_KEYS
-RULE = "TRAPA #1-3 and RTE x all 256 CCR values; interrupt entry for vectors 1-63 x all CCR (quick: 16 CCR values each + random); entry;RTE round trips; distinct = distinct (op, result state)"
+RULE = "TRAPA #1-3 and RTE x all 256 CCR values; interrupt entry for vectors 1-63 x all CCR (quick: 16 CCR values each + random); entry;RTE round trips (half of them with 1-3 further requests pending at the RTE); distinct = distinct (op, result state)"
 nontrivial_key = common.step_key
 
 def entry_cases(c, combos, with_rte=False):
@@ -19,6 +19,14 @@ def entry_cases(c, combos, with_rte=False):
         if with_rte:
             mem[target] = [0x56, 0x70]
             ops = "int:%x,step" % v
+            if r.random() < 0.5:
+                # further requests arrive while the handler runs masked: RTE must still restore the frame and leave
+                # them pending (they are accepted only at the next boundary)
+                ws = [r.randrange(1, 64) for _ in range(r.choice([1, 1, 2, 3]))]
+                for w in ws:
+                    if w != v:
+                        mem[4 * w] = isa.w32((r.choice([0, 0xff]) << 24) | ((target + 0x40) & ~1))
+                ops = "int:%x,%s,step" % (v, ",".join("irq:%x" % w for w in ws))
         else:
             ops = "int:%x" % v
         out.append(c.line("entry", [0x00, 0x00], pc, er, ccr, mem, ops=ops))
